@@ -212,18 +212,34 @@ def audit(modules):
     return res
 
 
+class DriverTimeout(InfraError):
+    """the model driver did not answer a request within the time limit (never a verdict)"""
+
+
 class Driver:
+    TIMEOUT = float(os.environ.get("VERIF_DRIVER_TIMEOUT", "240"))
+
     def __init__(self):
         ensure_built()
+        self._start()
+
+    def _start(self):
         self.p = subprocess.Popen([DRV], stdin=subprocess.PIPE, stdout=subprocess.PIPE, text=True, bufsize=1 << 20)
         self.n = 0
         if self.ask("ping") != "pong":
             raise InfraError("driver does not answer")
 
-    def ask(self, line):
+    def ask(self, line, timeout=None):
+        import select
         self.n += 1
         self.p.stdin.write(line + "\n")
         self.p.stdin.flush()
+        ready, _, _ = select.select([self.p.stdout], [], [], timeout or self.TIMEOUT)
+        if not ready:
+            self.p.kill()
+            self.p.wait()
+            self._start()        # later requests go to a fresh driver
+            raise DriverTimeout("driver did not answer within %.0f s: %s" % (timeout or self.TIMEOUT, line[:200]))
         out = self.p.stdout.readline()
         if not out:
             raise InfraError("driver died on: " + line[:300])
